@@ -34,6 +34,10 @@ const KINDS: &[Kind] = &[
     Kind { id: "assign-to-local-constant", top: None, stmt: Some("lc{n} :: 1\nlc{n} = 2"), lines: &[1] },
     Kind { id: "operator-mismatch", top: Some("g{n} :: 1 + \"a\""), stmt: Some("z{n} :: 1 + \"a\""), lines: &[0] },
     Kind { id: "argument-mismatch", top: Some("g{n} :: takes_str(1)"), stmt: Some("takes_str(1)"), lines: &[0] },
+    Kind { id: "argument-mismatch-in-multi-line-call", top: Some("g{n} :: takes_str(\n    1\n)"), stmt: Some("takes_str(\n    1\n)"), lines: &[1] },
+    Kind { id: "second-argument-mismatch-in-multi-line-call", top: None, stmt: Some("two_args(\n    \"ok\",\n    \"bad\",\n)"), lines: &[2] },
+    Kind { id: "list-element-mismatch-on-later-line", top: Some("g{n} :: [\n    1,\n    \"a\",\n]"), stmt: Some("z{n} :: [\n    1,\n    \"a\",\n]"), lines: &[0, 2] },
+    Kind { id: "unresolved-name-on-later-line-of-call", top: None, stmt: Some("print(\n    nope{n}\n)"), lines: &[1] },
     Kind { id: "annotation-mismatch", top: Some("g{n}: int : \"a\""), stmt: Some("z{n}: int = \"a\""), lines: &[0] },
     Kind { id: "not-on-int", top: Some("g{n} :: not 1"), stmt: Some("z{n} :: not 1"), lines: &[0] },
     Kind { id: "break-outside-loop", top: None, stmt: Some("break"), lines: &[0] },
@@ -99,6 +103,9 @@ fn build(c: &Case) -> Option<Built> {
         lines.push("print: fn *X -> void : external".into());
         lines.push("kk :: 7".into());
         lines.push("takes_str :: fn s: str do".into());
+        lines.push("    print(s)".into());
+        lines.push("end".into());
+        lines.push("two_args :: fn s: str, i: int do".into());
         lines.push("    print(s)".into());
         lines.push("end".into());
         let mut plant = |lines: &mut Vec<String>, indent: &str, want: &mut Vec<usize>| {
